@@ -1,6 +1,11 @@
 ---- MODULE Wire ----
 (* C15 - hostile network input.  One remote party talks to one node.  The node is modelled by the
-   REACTION THE PROPERTY DEMANDS for every class of input, in every phase of a connection:
+   REACTION THE PROPERTY DEMANDS for every class of input, in every phase of a connection.  A connection is
+   opened by either side: the remote party connects to the node (Connect: the node is the ACCEPTING side and
+   reads a handshake request, phase PreHs) or the node dials the remote party, whose address it learnt from a
+   discover response, the white list or the deputy list on chain (Dial: the node is the DIALING side, sends its
+   handshake request and then reads whatever the remote answers, phase OutHs).  After the handshake of either
+   direction the same frame reader and protocol manager serve the connection (ProtoHs, Est).  Demanded:
 
      - the node stays alive (no panic kills the process),
      - no handler ends up waiting for a lock nobody will release (deadlock),
@@ -25,38 +30,44 @@ CONSTANTS Table,        \* see above
           Carriers,     \* classes (kept, or "any") after which the enumeration continues on the same connection
           Heavy,        \* expensive classes: only as the first input of a phase
           Probe,        \* [phase |-> class]: what a second connection sends: the genuine handshakes and one request
-          MaxIn,        \* [phase |-> max number of inputs while staying in that phase]
+          MaxIn,        \* [direction |-> [phase |-> max number of inputs while staying in that phase]]
+          Dirs,         \* directions in which the first connection is opened: subset of {"in", "out"}
+          CrossProbe,   \* TRUE: the second connection is opened in either direction, FALSE: in the direction of the first
           MaxConns, ProbeAfter,
           MaxFrameK, SlackK, C,   \* allocation bound: MaxFrameK + SlackK + C * KiB received in the step
           HsLimitDevK,  \* the pre-handshake length limit of today's code (1 GiB), used by the deviation only
           Dev
 
-VARIABLES phase,   \* "PreHs" | "ProtoHs" | "Est" | "Closed" | "Undet" (closed or kept, both acceptable) | "Done"
+VARIABLES phase,   \* "Idle" | "PreHs" | "OutHs" | "ProtoHs" | "Est" | "Closed" | "Undet" (closed or kept, both acceptable) | "Done"
+          dir,     \* who opened the current connection: "in" the remote party (node accepts), "out" the node (it dialed); "none" before
           alive, stuck, allocK, recvK,   \* node still running / a handler deadlocked / KiB allocated resp. received in the last step
           n, conns, hist
-vars == <<phase, alive, stuck, allocK, recvK, n, conns, hist>>
+vars == <<phase, dir, alive, stuck, allocK, recvK, n, conns, hist>>
+
+HsPhases == {"PreHs", "OutHs"}                    \* the node reads a handshake packet: a request (accepting) resp. a response (dialing)
+OpenPhases == {"PreHs", "OutHs", "ProtoHs", "Est"}
 
 Classes == {t[1] : t \in Table}
 Rows(c, ph) == {t \in Table : t[1] = c /\ ph \in t[2]}
-NextPhase(ph) == CASE ph = "PreHs" -> "ProtoHs" [] ph = "ProtoHs" -> "Est" [] OTHER -> ph
+NextPhase(ph) == CASE ph \in HsPhases -> "ProtoHs" [] ph = "ProtoHs" -> "Est" [] OTHER -> ph
 Bound(rk) == MaxFrameK + SlackK + C * rk
 
-Init == /\ phase = "PreHs" /\ alive = TRUE /\ stuck = FALSE /\ allocK = 0 /\ recvK = 0
-        /\ n = 0 /\ conns = 1 /\ hist = <<>>
+Init == /\ phase = "Idle" /\ dir = "none" /\ alive = TRUE /\ stuck = FALSE /\ allocK = 0 /\ recvK = 0
+        /\ n = 0 /\ conns = 0 /\ hist = <<>>
 
 \* The node receives one input of class c.
 Recv(c) ==
   /\ alive /\ ~stuck
-  /\ phase \in {"PreHs", "ProtoHs", "Est"}
-  /\ n < MaxIn[phase]
+  /\ phase \in OpenPhases
+  /\ n < MaxIn[dir][phase]
   /\ c \in Heavy => n = 0
   /\ conns > 1 => c = Probe[phase]
   /\ \E t \in Rows(c, phase) :
        LET react == t[3]  annK == t[4]  sentK == t[5]
            eff == IF t[6] \in Dev THEN t[7] ELSE "none"
-           limitK == IF eff = "alloc" /\ phase = "PreHs" THEN HsLimitDevK ELSE MaxFrameK
+           limitK == IF eff = "alloc" /\ phase \in HsPhases THEN HsLimitDevK ELSE MaxFrameK
            \* a length-prefixed reader allocates the announced length iff it passes the limit; processing costs <= C per KiB received
-           al == (IF annK <= limitK THEN annK ELSE 0) + (IF eff = "alloc" /\ phase # "PreHs" THEN Bound(sentK) + 1 ELSE C * sentK)
+           al == (IF annK <= limitK THEN annK ELSE 0) + (IF eff = "alloc" /\ phase \notin HsPhases THEN Bound(sentK) + 1 ELSE C * sentK)
            np == CASE react = "close" -> "Closed"
                    [] react = "any"   -> IF c \in Carriers /\ conns = 1 /\ phase = "Est" THEN phase ELSE "Undet"   \* enumeration goes on as if kept
                    [] react = "adv"   -> IF c \in Carriers THEN NextPhase(phase) ELSE "Done"
@@ -67,17 +78,30 @@ Recv(c) ==
           /\ phase' = np
           /\ n' = IF np = phase THEN n + 1 ELSE 0
   /\ hist' = Append(hist, c)
-  /\ UNCHANGED conns
+  /\ UNCHANGED <<conns, dir>>
 
-\* After the node closed (or may have closed) the connection the remote party connects again; the node must still serve it.
-Connect ==
+\* A connection is opened in direction d: at the start, and again after the node closed (or may have closed) the previous
+\* one - the node must still serve the remote party (and still be able to dial it).
+CanOpen(d) ==
   /\ alive /\ ~stuck
-  /\ phase \in {"Closed", "Undet"} /\ conns < MaxConns /\ Len(hist) <= ProbeAfter
-  /\ phase' = "PreHs" /\ conns' = conns + 1 /\ n' = 0 /\ hist' = Append(hist, "Connect")
+  /\ \/ phase = "Idle" /\ d \in Dirs
+     \/ phase \in {"Closed", "Undet"} /\ conns < MaxConns /\ Len(hist) <= ProbeAfter /\ (CrossProbe \/ d = dir)
+\* the remote party connects: the node accepts and waits for a handshake request
+Connect ==
+  /\ CanOpen("in")
+  /\ phase' = "PreHs" /\ dir' = "in"
+  /\ conns' = conns + 1 /\ n' = 0 /\ hist' = Append(hist, "Connect")
+  /\ allocK' = 0 /\ recvK' = 0
+  /\ UNCHANGED <<alive, stuck>>
+\* the node dials the remote party: it sends its handshake request and waits for the response
+Dial ==
+  /\ CanOpen("out")
+  /\ phase' = "OutHs" /\ dir' = "out"
+  /\ conns' = conns + 1 /\ n' = 0 /\ hist' = Append(hist, "Dial")
   /\ allocK' = 0 /\ recvK' = 0
   /\ UNCHANGED <<alive, stuck>>
 
-Next == Connect \/ \E c \in Classes : Recv(c)
+Next == Connect \/ Dial \/ \E c \in Classes : Recv(c)
 Spec == Init /\ [][Next]_vars
 
 \* ------------------------------------------------------------------ the clauses of the property
@@ -85,11 +109,16 @@ NodeAlive == alive
 NoDeadlock == ~stuck
 AllocBounded == allocK <= Bound(recvK)
 \* a closed connection stays closed; only the genuine handshakes advance a connection
-ClosedIsFinal == [][phase = "Closed" => phase' \in {"Closed", "PreHs"}]_vars
+ClosedIsFinal == [][phase = "Closed" => phase' \in {"Closed", "PreHs", "OutHs"}]_vars
 OnlyHandshakesAdvance ==
-  [][(phase' = "Est" /\ phase = "ProtoHs") => \E t \in Rows(hist'[Len(hist')], "ProtoHs") : t[3] = "adv"]_vars
-TypeOK == /\ phase \in {"PreHs", "ProtoHs", "Est", "Closed", "Undet", "Done"}
+  [][/\ (phase' = "Est" /\ phase = "ProtoHs") => \E t \in Rows(hist'[Len(hist')], "ProtoHs") : t[3] = "adv"
+     /\ (phase' = "ProtoHs" /\ phase # "ProtoHs") => phase \in HsPhases /\ \E t \in Rows(hist'[Len(hist')], phase) : t[3] = "adv"
+     /\ phase' = "PreHs" => dir' = "in"
+     /\ phase' = "OutHs" => dir' = "out"]_vars
+TypeOK == /\ phase \in {"Idle", "PreHs", "OutHs", "ProtoHs", "Est", "Closed", "Undet", "Done"}
+          /\ dir \in {"none", "in", "out"} /\ (dir = "none") = (phase = "Idle")
+          /\ Dirs \subseteq {"in", "out"} /\ CrossProbe \in BOOLEAN
           /\ \A t \in Table : t[3] \in {"close", "keep", "adv", "any"} /\ t[7] \in {"none", "panic", "stuck", "alloc"}
-                              /\ t[2] \subseteq {"PreHs", "ProtoHs", "Est"}
+                              /\ t[2] \subseteq OpenPhases
           /\ Carriers \subseteq Classes /\ Heavy \subseteq Classes /\ \A p \in DOMAIN Probe : Probe[p] \in Classes
 ====
